@@ -61,8 +61,16 @@ func c14Join(w *mon.W, idx int) {
 		vals = nil
 	}
 	in := cloneWords(vals)
+	guardV := func() bool { return true }
+	if vals != nil {
+		vals, guardV = argW(w, vals)
+	}
 	w.Op, w.A, w.B = "Join", int64(width), int64(n)
 	got := bitmap.Join(vals, width)
+	if !guardV() {
+		w.Fail("Join/wrote-outside-len-of-argument", mon.D{"width": width, "n": n})
+		return
+	}
 	// oracle: bit j*w+k = bit k of values[j]
 	nbits := n * int(width)
 	exp := make([]uint64, (nbits+63)/64)
@@ -106,6 +114,7 @@ func c14Join(w *mon.W, idx int) {
 	if n > 0 && (high || width == 64) {
 		w.Distinct(gen.Hash64(uint64(width), gen.HashWords(in)))
 	}
+	scribbleW(got) // ours now
 	if !retainCheck(w, "Join", "bitmap.Join", func() uint64 { return gen.HashWords(got) }) {
 		return
 	}
@@ -124,9 +133,6 @@ func c14CheckSlice(w *mon.W, words, orig []uint64, from, to int) bool {
 		w.Fail("Slice/len", mon.D{"words": truncW(orig, 4), "nwords": len(orig), "from": from, "to": to, "got_words": len(got), "expected_words": expLen})
 		return false
 	}
-	if (from+to)%7 == 0 && !retainCheck(w, "Slice", "bitmap.Slice", func() uint64 { return gen.HashWords(got) }) {
-		return false
-	}
 	for k := 0; k < expLen; k++ {
 		var e uint64
 		lim := n - 64*k
@@ -138,6 +144,12 @@ func c14CheckSlice(w *mon.W, words, orig []uint64, from, to int) bool {
 		}
 		if got[k] != e {
 			w.Fail("Slice/bits", mon.D{"words": truncW(orig, 4), "from": from, "to": to, "word": k, "got": fmt.Sprintf("%016x", got[k]), "expected": fmt.Sprintf("%016x", e)})
+			return false
+		}
+	}
+	if (from+to)%7 == 0 {
+		scribbleW(got) // ours now
+		if !retainCheck(w, "Slice", "bitmap.Slice", func() uint64 { return gen.HashWords(got) }) {
 			return false
 		}
 	}
@@ -179,7 +191,12 @@ func nontrivialBitmap(ws []uint64) bool {
 func c14SliceAll(w *mon.W, idx int) {
 	r := w.Rng
 	nw := 1 + idx%3
-	words := gen.ZooBitmap(r, nw)
+	words, guard := argW(w, gen.ZooBitmap(r, nw))
+	defer func() {
+		if !guard() {
+			w.Fail("Slice/wrote-outside-len-of-argument", mon.D{"nwords": nw})
+		}
+	}()
 	orig := cloneWords(words)
 	total := 64 * nw
 	var ev int64
